@@ -330,8 +330,10 @@ func checkRegistry(o *options, all []oblOut) []string {
 }
 
 func registrable(kind string) bool {
+	// labelled obligations that come from contract clauses; call-site and fork/join obligations depend on the
+	// shape of the body and may legitimately disappear with it
 	return kind == "ensures" || kind == "lemma" || strings.HasPrefix(kind, "invariant.") || kind == "decreases" ||
-		strings.HasPrefix(kind, "requires@call") || kind == "nopanic" || strings.HasPrefix(kind, "guard") || strings.HasPrefix(kind, "forkjoin")
+		kind == "nopanic" || strings.HasPrefix(kind, "guard")
 }
 
 func writeReplay(o *options, p *Program, u *UnitResult, ob *Obligation, path string) string {
